@@ -138,8 +138,8 @@ class text_rows:
 TEXTCANVAS = canvas_shape(_canvas.TextCanvas)
 
 
-@contract("urwid/canvas.py:apply_text_layout", property=(), assumed=True,
-          notes="canvas protocol for laid-out text: a TextCanvas of `maxcol` columns with one row per layout line and no cursor "
+@contract("urwid/canvas.py:apply_text_layout", property=(), assumed=True, alias="opaque-text",
+          notes="(used through contract_overrides of Text.render) canvas protocol for laid-out text: a TextCanvas of `maxcol` columns with one row per layout line and no cursor "
                 "(every line is trimmed to maxcol and TextCanvas pads it); its CanvasError exits (a line wider than maxcol after "
                 "trimming, attribute runs longer than the text) are excluded here -- that the standard layout never produces them "
                 "is C03's claim, checked bounded by C01/C02/C03")
@@ -210,14 +210,15 @@ class calc_width_opaque:
     result = Dim  # (a sane screen dimension: the standing assumption "sizes < 2^26" of the widget protocol)
 
 
-@contract("urwid/util.py:get_encoding", property=(), assumed=True, deterministic=True,
-          notes="returns the module global _target_encoding (a str): an opaque encoding name here")
+@contract("urwid/util.py:get_encoding", property=(), assumed=True, deterministic=True, alias="opaque-text",
+          notes="returns the module global _target_encoding (a str): an opaque encoding name here; used only through "
+                "contract_overrides of Text.pack / Text.render (other properties model the encoding globals themselves)")
 class get_encoding_c:
     params = {}
     result = Opaque("Encoding")
 
 
-_TOV = {"urwid/str_util.py:calc_width": calc_width_opaque}
+_TOV = {"urwid/str_util.py:calc_width": calc_width_opaque, "urwid/util.py:get_encoding": get_encoding_c, "urwid/canvas.py:apply_text_layout": apply_text_layout_c}
 SIZE_FF = Union(Tup(Int), Tup(), Const(None))
 
 
